@@ -470,8 +470,12 @@ class LoopbackServer:
 # ---------------------------------------------------------------------------
 # running commands
 # ---------------------------------------------------------------------------
-def sub_env():
+def sub_env(tmpdir=None):
     env = dict(os.environ)
+    if tmpdir:
+        # the sharded writer leaves its scratch directories behind: keep them
+        # inside the program's own scratch directory (removed afterwards)
+        env["TMPDIR"] = tmpdir
     # start-up dominates: keep the numeric libraries from spawning thread pools
     for k in ("OMP_NUM_THREADS", "OPENBLAS_NUM_THREADS", "MKL_NUM_THREADS"):
         env.setdefault(k, "1")
@@ -480,8 +484,10 @@ def sub_env():
 
 def run_tool(module, args, cwd, timeout=120):
     argv = [sys.executable, "-m", "neuroglancer_scripts.scripts." + module] + list(args)
+    tmpdir = os.path.join(cwd, "tmp")
+    os.makedirs(tmpdir, exist_ok=True)
     try:
-        p = subprocess.run(argv, cwd=cwd, env=sub_env(), capture_output=True, timeout=timeout)
+        p = subprocess.run(argv, cwd=cwd, env=sub_env(tmpdir), capture_output=True, timeout=timeout)
         rc, out, err = p.returncode, p.stdout, p.stderr
     except subprocess.TimeoutExpired as ex:
         rc, out, err = 124, ex.stdout or b"", (ex.stderr or b"") + b"\nTIMEOUT"
